@@ -9,6 +9,8 @@ package store
 
 import (
 	"bytes"
+	"io"
+	"os"
 
 	"github.com/douban/gobeansdb/cmem"
 )
@@ -21,6 +23,20 @@ func verifPoint(point string, args ...interface{}) {
 		h(point, args...)
 	}
 }
+
+// verifWriter reports every write that reaches a data file (after the bufio layer): path, file offset, bytes.
+type verifWriter struct {
+	fd   *os.File
+	path string
+}
+
+func (w *verifWriter) Write(p []byte) (int, error) {
+	off, _ := w.fd.Seek(0, io.SeekCurrent)
+	verifPoint("fs.write", w.path, off, p)
+	return w.fd.Write(p)
+}
+
+func verifWrapWriter(fd *os.File, path string) io.Writer { return &verifWriter{fd: fd, path: path} }
 
 // ---- pure kernels ----
 
